@@ -30,6 +30,7 @@ def opStep (sh : Shape) (s : AState) : Sexp → Option (AState × String)
     | some i => pure (edit s i id, "ok")
     | none => pure (s, "ok")
   | .list [.atom "setmodel"] => let s' := setModel s s.ids; some (s', "ok")
+  | .list [.atom "switch"] => let s' := switchModel s; some (s', "ok")
   | .list [.atom "edit", .atom i, id] => do let i ← i.toNat?; let id ← str id; pure (edit s i id, "ok")
   | .list [.atom "assignall"] => let (s', b) := assignAll true sh s; some (s', if b then "b1" else "b0")
   | .list [.atom "assignids", .atom k] => do
@@ -60,7 +61,7 @@ def answer (line : String) : String :=
   | some (.list [.atom "annot", .list (.atom "kinds" :: ks), .list (.atom "visits" :: vs), .list (.atom "init" :: is), .list (.atom "ops" :: ops)]) =>
     match nats ks, nats vs, is.mapM str with
     | some ks, some vs, some is =>
-      match runOps ⟨ks, vs⟩ { init with ids := is } ops with
+      match runOps ⟨ks, vs⟩ { init with ids := is, other := is } ops with
       | some rs => "(r " ++ " ".intercalate rs ++ ")"
       | none => "bad-op"
     | _, _, _ => "bad-line"
